@@ -125,6 +125,27 @@ def generate(seed, prop):
                 sp.update({"r": "bump", "i0": int(min(max(round(rng.gauss(c0, sd)), 1), len(f) - 2)),
                            "w": 0.12, "noise": 0.0})
                 sp.pop("at", None)
+    bimodal = None
+    if prop == "C06" and nmin < 40 and rng.random() < 0.4:
+        # two resonances per curve (a low and a high mode, each scattered like a sample with outliers): which one the
+        # mean curve's peak is depends on the search range, so consecutive rejections with different ranges on ONE
+        # object visit the same accept states under different ranges
+        grid = {"kind": "geom", "lo": 0.2, "hi": 20.0, "n": rng.choice([30, 45, 60, 90, 120])}
+        f = CV.gen_grid(grid)
+        nf = len(f)
+        n_az = 1 if kind == "traditional" else rng.choice([1, 2])
+        nw = rng.randint(10, 40) if rng.random() < 0.3 else rng.randint(40, 110)
+        curves = []
+        for _ in range(n_az):
+            cs = []
+            for _ in range(nw):
+                sd = nf / 30.0 if rng.random() < 0.8 else nf / 9.0
+                cs.append({"r": "twin", "k": rng.randrange(1 << 30), "w": rng.choice([0.1, 0.15]), "base": 1.0,
+                           "a": rng.choice([2.0, 3.0, 4.0]), "eps": rng.choice([-0.3, -0.1, 0.1, 0.3]),
+                           "i0": int(min(max(round(rng.gauss(nf // 4, sd)), 1), nf // 2 - 2)),
+                           "i1": int(min(max(round(rng.gauss(3 * nf // 4, sd)), nf // 2 + 2), nf - 2))})
+            curves.append(cs)
+        bimodal = float(f[nf // 2])
     if kind == "diffuse":
         curves = [[curves[0][0]]]
     azimuths = CV.draw_azimuths(rng, n_az)
@@ -185,7 +206,7 @@ def generate(seed, prop):
             w[k] *= 3
     if prop == "C06" and w["fdwra"] == 0:
         w["fdwra"] = 5.0
-    if prop == "C06" and max(len(c) for c in curves) >= 40:
+    if prop == "C06" and (max(len(c) for c in curves) >= 40 or bimodal is not None):
         w["fdwra"] = 12.0                      # large sets: mostly the algorithm itself, from different entry states
     if not same_counts:
         w["sta_lta"] = w["max_value"] = 0.0
@@ -212,13 +233,18 @@ def generate(seed, prop):
     for _ in range(n_ops):
         name = rng.choices(names, weights)[0]
         if name == "plot":
-            if n_plots >= 2:
+            if n_plots >= 3:
                 name = "update_peaks"
             n_plots += 1
         if prop == "C13" and name in ("sta_lta", "max_value"):
             o = TD.draw_td_op(rng, name, world)
         else:
             o = draw_op(rng, name, f, kind, curves, azimuths, fault_rate)
+        if bimodal is not None and "range" in o and name in ("fdwra", "update_peaks", "query"):
+            o["range"] = rng.choice([[None, bimodal], [bimodal, None], [None, None], [float(f[1]), bimodal], o["range"]])
+            if name == "fdwra":
+                o["max_iterations"] = rng.choice([50, 50, 5])
+                o["kwargs"] = rng.choice([None, None, {}])
         if "range" in o and name != "query":
             # biased schedule: repeat the range in use (with other kwargs / argument type) so that the
             # same-range short-circuit and 'only the kwargs changed' paths are exercised
@@ -324,6 +350,10 @@ def draw_op(rng, name, f, kind, curves, azimuths, fault_rate=0.0):
                   ("plot_mean_curve", 0.8), ("plot_frequency_std", 0.7),
                   ("plot_peak_mean_curve", 0.7), ("plot_peak_individual_valid_curves", 0.7),
                   ("plot_peak_individual_invalid_curves", 0.4)]}}
+        if fn == "single_panel" and rng.random() < 0.45:
+            # the caller draws onto axes of its own, kept across the run: cleared before the call, or still holding
+            # what was drawn there before
+            op["ax"] = rng.choice(["cleared", "cleared", "dirty"])
         if rng.random() < 0.25:
             site = rng.choice(["ax.plot", "ax.plot", "ax.fill", "ax.legend"])
             op["fault"] = {"kind": "raise_in_call", "site": site,
@@ -484,6 +514,14 @@ class FdwraTrace(logging.Handler):
             self.iters[-1]["peak"] = _parse_mask(msg)
         elif msg.startswith("valid_window_boolean_mask:") and self.iters:
             self.iters[-1]["window"] = _parse_mask(msg)
+        elif msg.startswith("\t") and self.iters and ":" in msg:
+            k, _, v = msg.strip().partition(":")
+            if k in ("mean_fn_before", "std_fn_before", "mc_peak_frq_before", "mean_fn_after", "std_fn_after",
+                     "mc_peak_frq_after"):
+                try:
+                    self.iters[-1][k] = float(v)
+                except ValueError:
+                    pass
 
 
 def _parse_mask(msg):
@@ -1283,9 +1321,10 @@ def prepare_c06(ctx, st, which, op):
             with warnings.catch_warnings():
                 warnings.simplefilter("ignore")
                 with np.errstate(all="ignore"):
+                    quant = []
                     mask, it, status, trace = FD.run(st.f, amp, pf, P, op["n"], op["max_iterations"],
-                                                     op["dfn"], op["dmc"], R)
-            m.update(mask=mask, it=it, status=status, trace=trace)
+                                                     op["dfn"], op["dmc"], R, quantities=quant)
+            m.update(mask=mask, it=it, status=status, trace=trace, quant=quant)
         models.append(m)
     pre["models"] = models
     # twins (built before the call, from the pre-call state); large sets are judged by the refinement alone
@@ -1368,6 +1407,22 @@ def oracle_c06(ctx, st, op, info):
                 ctx.check(not (Pf & ~prev).any(), "trace_not_monotone", "final mask re-accepts a window", key=key)
             ctx.check(longest == int(ret), "iteration_count_vs_trace",
                       f"returned {ret} but {longest} iterations were performed", key=key)
+            # the quantities the algorithm looked at in each iteration (when the trace carries them): the mean and standard
+            # deviation of fn over the accepted peaks and the peak of the mean curve within the range, before and after
+            if judged_model:
+                for seq, m in zip(per_az, models):
+                    for rec, q in zip(seq, m.get("quant") or []):
+                        if q["status"] != "ok":
+                            break
+                        for name_, tol in (("mc_peak_frq_before", 1e-12), ("mc_peak_frq_after", 1e-12), ("mean_fn_before", 1e-9),
+                                           ("mean_fn_after", 1e-9), ("std_fn_before", 1e-7), ("std_fn_after", 1e-7)):
+                            if name_ in rec:
+                                scale_ = max(abs(q[name_]), abs(q["mean_fn_before"]))
+                                ctx.check(abs(rec[name_] - q[name_]) <= tol * scale_ + 1e-300, "iteration_quantity_differs",
+                                          lambda: f"azimuth {m['a']}, iteration {rec['it']}: the rejection worked with {name_} = "
+                                                  f"{rec[name_]!r}, the published algorithm's value for that accept state and search "
+                                                  f"range {op['range']} is {q[name_]!r}", key={**key, "quantity": name_})
+                                ctx.probe("fdwra_iteration_quantities_judged")
         # --- refinement against the reference algorithm
         if judged_model:
             exp_it = max(m["it"] for m in models)
